@@ -282,6 +282,11 @@ def write_driver_all():
         text = text.replace("open Lean\n", "import OQ.Generated.TranslatedRunnersDriver\nopen Lean\n", 1)
         text += '  | "TRR" => OQ.TRR.Driver.handle op j\n'
     # --- T5 end
+    # --- T1: glue of the gate-CLASS translator (harness/tables_gates.py), dispatched as "TG"
+    if os.path.exists(os.path.join(LEAN, "OQ", "Generated", "TranslatedGatesDriver.lean")):
+        text = text.replace("open Lean\n", "import OQ.Generated.TranslatedGatesDriver\nopen Lean\n", 1)
+        text += '  | "TG" => OQ.TG.Driver.handle op j\n'
+    # --- T1 end
     text += '  | _ => .error s!"unknown property {prop}"\n\nend OQ.Driver\n'
     path = os.path.join(d, "All.lean")
     if not os.path.exists(path) or open(path).read() != text:
